@@ -23,6 +23,8 @@ RULES = [
     'p(X, Y) :- r(X, Y), not r(Y, X).', 'r(X, Y) :- p(X), q(Y), X < Y.', '{s}.', ':- not s.', 'q(%d).' % S1,
     'p(X) :- q(X), not not p(X).', 'q(X) :- p(X), X != a.', 't :- not not t.', 'p(X / 2) :- q(X).',
     'u(V1, V) :- r(V, V1).', 'p(X) :- u(X, X), s.', ':- r(X, Y), X = Y + 1.',
+    # variables named like tau*'s fresh ones, below a unary minus only / also elsewhere
+    'p(X) :- q(X), r(-Z, X), q(Z).', 's :- q(-X).', 'p(Z) :- q(-Z).', 'p(-X) :- q(X), r(Z1, -Z1).',
 ]
 
 
